@@ -58,6 +58,10 @@ impl MultiProgress {
         let mut state = self.state.write().unwrap();
         state.draw_target.disconnect(Instant::now());
         state.draw_target = target;
+        // Nothing of this `MultiProgress` is on the new target's screen: the zombie lines were
+        // left on the old one, so they must not be erased from (or kept on) the new one.
+        state.zombie_lines_count = VisualLines::default();
+        state.frame_stale = true;
     }
 
     /// Set whether we should try to move the cursor when possible instead of clearing lines.
